@@ -38,7 +38,7 @@ python3 - "$P" "$L" "$ok" "$rc_build" "$rc_tests" "$rc_without" "$rc_with" "$fai
 import json,sys,re
 P,L,ok,rb,rt,rwo,rw,failed,real=sys.argv[1:]
 notes=open('/tmp/seeds/%s/NOTES.md'%P).read() if __import__('os').path.exists('/tmp/seeds/%s/NOTES.md'%P) else ''
-json.dump({"seed":"%s-%s"%(P,L),"property":P,"confirmed": ok=="true",
+json.dump({"seed":"%s-%s"%(P,L),"property":P[:3],"confirmed": ok=="true",
  "what_was_run":{"build":"cargo build --workspace --offline (rc=%s)"%rb,"tests":"cargo nextest run --workspace --no-fail-fast --offline --test-threads 8 (rc=%s; failed/timeout in full run: %s; still failing when re-run singly: %s)"%(rt,failed or 'none',real.strip() or 'none'),
    "demo_without_change":"demo/run.sh <worktree> rc=%s (0 expected)"%rwo,"demo_with_change":"demo/run.sh <worktree> rc=%s (non-zero expected)"%rw},
  "needs_to_manifest":"see notes (from the seeding agent) below","notes_from_seeder":notes[:6000]}, open('/verif/seeded/%s-%s/meta.json'%(P,L),'w'), indent=1)
